@@ -1,353 +1,237 @@
 import RosuModel.Lemmas.GradualTaiko
 
 /-!
-# `TaikoGradualDifficulty::nth` on regular maps
+# `TaikoGradualDifficulty::nth`, exhausted states and arbitrary operation sequences (as fixed)
 
-Regular map: `true :: true :: rest` with `rest ≠ []` (the first two objects are hits and there
-is a third object) — the hypothesis of `taiko_next_eq_prefix_partial`.
-
-`TaikoReg g i` describes the state after `i` values for **every** `i` (including the two states
-`i = 0, 1` in which no difficulty object has been consumed, where `nth` takes one of its three
-`(take, idx)` fast paths); `TaikoDrained g` is the state after a `next`/`nth` that returned
-`None` (the iterator has been run dry over the trailing non-hits).  Every operation maps these
-states to these states, `nth k` yields the value number `i + min (k+1) remaining`.
+For **every** object list: `TaikoCanon g i` is the state after `i` values (`i ≤ H`, `H` = number of
+hits); `TaikoDrained g` is the state after a `next`/`nth` that returned `None` (the iterator has been
+run dry over the trailing non-hits).  Every operation maps these states to these states; `nth k`
+never panics and yields the value number `i + min (k+1) remaining`, `len` is `H - i`.
 -/
 
 namespace Rosu.Gradual
 
 variable {S : Type}
 
-/-- State after `i` values (any `i ≤` number of hits) on the regular map `true :: true :: rest`. -/
-structure TaikoReg (sk : Skills S) (rest : List Bool) (g : TaikoGrad S) (i : Nat) : Prop where
-  idx : g.idx = i
-  combo : g.maxCombo = i
-  pos : g.iterPos = cutLen rest (i - 2)
-  skills : g.skills = processedPrefix sk (cutLen rest (i - 2))
-  le : i ≤ 2 + hitsIn rest
-
 /-- State after an exhausted `next`: all values reported, the difficulty-object iterator dry. -/
-structure TaikoDrained (sk : Skills S) (rest : List Bool) (g : TaikoGrad S) : Prop where
-  idx : g.idx = 2 + hitsIn rest
-  combo : g.maxCombo = 2 + hitsIn rest
-  pos : g.iterPos = rest.length
-  skills : g.skills = processedPrefix sk rest.length
+structure TaikoDrained (sk : Skills S) (objs : List Bool) (g : TaikoGrad S) : Prop where
+  idx : g.idx = hitsIn objs
+  combo : g.maxCombo = hitsIn objs
+  pos : g.iterPos = (objs.drop 2).length
+  skills : g.skills = processedPrefix sk (objs.drop 2).length
 
 /-- The states an operation sequence can reach. -/
-def TaikoSt (sk : Skills S) (rest : List Bool) (g : TaikoGrad S) (i : Nat) : Prop :=
-  TaikoReg sk rest g i ∨ (i = 2 + hitsIn rest ∧ TaikoDrained sk rest g)
+def TaikoSt (sk : Skills S) (objs : List Bool) (g : TaikoGrad S) (i : Nat) : Prop :=
+  TaikoCanon sk objs g i ∨ (i = hitsIn objs ∧ TaikoDrained sk objs g)
 
-theorem TaikoReg.ofCanon {sk : Skills S} {rest : List Bool} {g : TaikoGrad S} {i : Nat}
-    (h : TaikoCanon sk rest g i) : TaikoReg sk rest g i :=
-  ⟨h.idx, h.combo, h.pos, h.skills, h.le⟩
+theorem taikoLen_canon (sk : Skills S) (objs : List Bool) (g : TaikoGrad S) (i : Nat)
+    (hidx : g.idx = i) (hle : i ≤ hitsIn objs) : taikoLen objs g = some (hitsIn objs - i) := by
+  show csub (objs.filter id).length g.idx = _
+  rw [hidx]
+  simp [csub, hitsIn] at hle ⊢
+  exact hle
 
-theorem TaikoReg.toCanon {sk : Skills S} {rest : List Bool} {g : TaikoGrad S} {i : Nat}
-    (h : TaikoReg sk rest g i) (h2 : 2 ≤ i) : TaikoCanon sk rest g i :=
-  ⟨h.idx, h.combo, h.pos, h.skills, h2, h.le⟩
+/-- `len()` never underflows: it is the number of values still to come. -/
+theorem taikoLen_st (sk : Skills S) (objs : List Bool) (g : TaikoGrad S) (i : Nat)
+    (hs : TaikoSt sk objs g i) : taikoLen objs g = some (hitsIn objs - i) := by
+  rcases hs with h | ⟨he, h⟩
+  · exact taikoLen_canon sk objs g i h.idx h.le
+  · exact taikoLen_canon sk objs g i (by rw [h.idx, he]) (by omega)
 
-theorem taikoNew_reg (sk : Skills S) (rest : List Bool) :
-    TaikoReg sk rest (taikoNew sk (true :: true :: rest)) 0 :=
-  ⟨rfl, rfl, by simp [taikoNew, cutLen_zero], by simp [taikoNew, cutLen_zero, processedPrefix, processFrom],
-    Nat.zero_le _⟩
+/-- The exhausted `next`: `None`, and the iterator has been run dry. -/
+theorem taikoNext_exhausted (sk : Skills S) (objs : List Bool) (g : TaikoGrad S)
+    (hc : TaikoCanon sk objs g (hitsIn objs)) :
+    (taikoNext sk objs g).1 = none ∧ TaikoDrained sk objs (taikoNext sk objs g).2 := by
+  obtain ⟨hidx, hcombo, hpos, hsk, _⟩ := hc
+  have hH := hitsIn_split objs
+  have hn := nHits_eq objs
+  have hcond : g.idx ≥ (taikoFirstCombos objs).nHits := by rw [hn, hidx]; omega
+  have hqle : cutLen (objs.drop 2) (hitsIn objs - firstHits objs) ≤ (objs.drop 2).length := cutLen_le _ _
+  have hrem := hitsIn_drop_cutLen (objs.drop 2) (hitsIn objs - firstHits objs) (by omega)
+  have hh : hitsIn ((objs.drop 2).drop (cutLen (objs.drop 2) (hitsIn objs - firstHits objs))) = 0 := by omega
+  have hl := taikoHitLoop_dry sk (objs.drop 2) ((objs.drop 2).length + 1) g _ hpos hsk hqle hh (by omega)
+  simp only [taikoNext, hcond, if_true, hl]
+  exact ⟨trivial, ⟨hidx, hcombo, rfl, rfl⟩⟩
 
-theorem hits_regular (rest : List Bool) :
-    ((true :: true :: rest).filter id).length = 2 + hitsIn rest := by
-  show hitsIn (true :: true :: rest) = _
-  rw [hitsIn_cons, hitsIn_cons]; simp; omega
-
-/-! ## `next` -/
-
-theorem taikoNext_reg (sk : Skills S) (rest : List Bool) (hne : rest ≠ []) (g : TaikoGrad S) (i : Nat)
-    (hc : TaikoReg sk rest g i) :
-    (i < 2 + hitsIn rest →
-      (taikoNext sk (true :: true :: rest) g).1 = some (taikoValue sk rest (i + 1)) ∧
-      TaikoReg sk rest (taikoNext sk (true :: true :: rest) g).2 (i + 1)) ∧
-    (i = 2 + hitsIn rest → (taikoNext sk (true :: true :: rest) g).1 = none ∧
-      TaikoDrained sk rest (taikoNext sk (true :: true :: rest) g).2) := by
-  rcases Nat.lt_or_ge i 2 with hlt2 | hge2
-  · -- no difficulty object yet
-    obtain ⟨hidx, hcombo, hpos, hsk, hle⟩ := hc
-    have hdrop : (true :: true :: rest).drop 2 = rest := rfl
-    have hemp : rest.isEmpty = false := by cases rest <;> simp_all
-    have h0 : i - 2 = 0 := by omega
-    have h1 : i + 1 - 2 = 0 := by omega
-    rw [h0] at hpos hsk
-    refine ⟨fun _ => ?_, fun h => by omega⟩
-    have hi : i = 0 ∨ i = 1 := by omega
-    rcases hi with hi | hi <;> subst hi
-    · refine ⟨?_, ⟨?_, ?_, ?_, ?_, by omega⟩⟩ <;>
-        simp [taikoNext, hdrop, hemp, hidx, taikoFirstCombos, taikoValue, hpos, hsk]
-    · refine ⟨?_, ⟨?_, ?_, ?_, ?_, by omega⟩⟩ <;>
-        simp [taikoNext, hdrop, hemp, hidx, taikoFirstCombos, taikoValue, hpos, hsk]
-  · have hcan := hc.toCanon hge2
-    have h := taikoNext_spec sk rest g i hcan
-    refine ⟨fun hlt => ⟨(h.1 hlt).1, TaikoReg.ofCanon (h.1 hlt).2⟩, fun heq => ⟨h.2 heq, ?_⟩⟩
-    obtain ⟨hidx, hcombo, hpos, hsk, hle⟩ := hc
-    have hdrop : (true :: true :: rest).drop 2 = rest := rfl
-    have hqle : cutLen rest (i - 2) ≤ rest.length := cutLen_le _ _
-    have hrem : hitsIn (rest.drop (cutLen rest (i - 2))) = 0 := by
-      rw [hitsIn_drop_cutLen rest _ (by omega)]; omega
-    have hidx2 : g.idx ≥ 2 := by omega
-    have hl := taikoHitLoop_dry sk rest (rest.length + 1) g _ hpos hsk hqle hrem (by omega)
-    simp only [taikoNext, hdrop, hidx2, ↓reduceIte, hl]
-    exact ⟨by simp [hidx, heq], by simp [hcombo, heq], rfl, rfl⟩
-
-theorem taikoNext_drained (sk : Skills S) (rest : List Bool) (g : TaikoGrad S)
-    (hd : TaikoDrained sk rest g) : taikoNext sk (true :: true :: rest) g = (none, g) := by
+/-- Once drained, `next` returns `None` and changes nothing. -/
+theorem taikoNext_drained (sk : Skills S) (objs : List Bool) (g : TaikoGrad S)
+    (hd : TaikoDrained sk objs g) : taikoNext sk objs g = (none, g) := by
   obtain ⟨hidx, hcombo, hpos, hsk⟩ := hd
-  have hdrop : (true :: true :: rest).drop 2 = rest := rfl
-  have hidx2 : g.idx ≥ 2 := by omega
-  have hdrop0 : hitsIn (rest.drop rest.length) = 0 := by simp [hitsIn]
-  have hl := taikoHitLoop_dry sk rest (rest.length + 1) g rest.length hpos hsk (Nat.le_refl _) hdrop0
-    (by omega)
-  simp only [taikoNext, hdrop, hidx2, ↓reduceIte, hl]
+  have hH := hitsIn_split objs
+  have hn := nHits_eq objs
+  have hcond : g.idx ≥ (taikoFirstCombos objs).nHits := by rw [hn, hidx]; omega
+  have hdrop0 : hitsIn ((objs.drop 2).drop (objs.drop 2).length) = 0 := by
+    rw [List.drop_length]; rfl
+  have hl := taikoHitLoop_dry sk (objs.drop 2) ((objs.drop 2).length + 1) g (objs.drop 2).length hpos hsk
+    (Nat.le_refl _) hdrop0 (by omega)
+  simp only [taikoNext, hcond, if_true, hl]
   congr 1
   cases g
   simp_all
 
-/-! ## the `for _ in 0..take` loop of `nth` -/
+/-- `next` maps reachable states to reachable states. -/
+theorem taikoNext_st (sk : Skills S) (objs : List Bool) (g : TaikoGrad S) (i : Nat)
+    (hs : TaikoSt sk objs g i) : ∃ j, TaikoSt sk objs (taikoNext sk objs g).2 j := by
+  rcases hs with hc | ⟨he, hd⟩
+  · rcases Nat.lt_or_ge i (hitsIn objs) with hlt | hge
+    · exact ⟨i + 1, Or.inl ((taikoNext_spec sk objs g i hc).1 hlt).2⟩
+    · have heq : i = hitsIn objs := by have := hc.le; omega
+      subst heq
+      exact ⟨_, Or.inr ⟨rfl, (taikoNext_exhausted sk objs g hc).2⟩⟩
+  · rw [taikoNext_drained sk objs g hd]
+    exact ⟨i, Or.inr ⟨he, hd⟩⟩
 
-/-- One round of the loop body: the inner hit loop stops right after the next hit. -/
-theorem taikoHitLoop_canon (sk : Skills S) (rest : List Bool) (g : TaikoGrad S) (i : Nat)
-    (hc : TaikoCanon sk rest g i) (hlt : i < 2 + hitsIn rest) :
-    ∃ g', taikoHitLoop sk rest (rest.length + 1) g = (true, g') ∧
-      TaikoCanon sk rest { g' with maxCombo := g'.maxCombo + 1, idx := g'.idx + 1 } (i + 1) := by
-  obtain ⟨hidx, hcombo, hpos, hsk, hge, hle⟩ := hc
-  have hrem : hitsIn (rest.drop (cutLen rest (i - 2))) = hitsIn rest - (i - 2) :=
-    hitsIn_drop_cutLen rest (i - 2) (by omega)
-  have hh : 1 ≤ hitsIn (rest.drop (cutLen rest (i - 2))) := by omega
-  have hf : cutLen (rest.drop (cutLen rest (i - 2))) 1 ≤ rest.length + 1 := by
-    have := cutLen_le (rest.drop (cutLen rest (i - 2))) 1
-    simp at this; omega
-  have hl := taikoHitLoop_hit sk rest (rest.length + 1) g _ hpos hsk hh hf
-  have hnext : cutLen rest (i - 2) + cutLen (rest.drop (cutLen rest (i - 2))) 1 =
-      cutLen rest (i + 1 - 2) := by
-    rw [← cutLen_add]; congr 1; omega
-  rw [hnext] at hl
-  exact ⟨_, hl, ⟨by simp [hidx], by simp [hcombo], rfl, rfl, by omega, by omega⟩⟩
-
-theorem taikoNthLoop_canon (sk : Skills S) (rest : List Bool) :
-    ∀ (k : Nat) (g : TaikoGrad S) (i : Nat), TaikoCanon sk rest g i → i + k ≤ 2 + hitsIn rest →
-      ∃ g', taikoNthLoop sk rest k g = (true, g') ∧ TaikoCanon sk rest g' (i + k) := by
-  intro k
-  induction k with
-  | zero => intro g i hc _; exact ⟨g, rfl, hc⟩
-  | succ k ih =>
-    intro g i hc hk
-    obtain ⟨g1, h1, hc1⟩ := taikoHitLoop_canon sk rest g i hc (by omega)
-    obtain ⟨g2, h2, hc2⟩ := ih _ (i + 1) hc1 (by omega)
-    refine ⟨g2, ?_, by rw [show i + (k + 1) = i + 1 + k by omega]; exact hc2⟩
-    unfold taikoNthLoop
-    rw [h1]
-    exact h2
-
-/-! ## `nth` -/
-
-/-- The part of `nth` after the `(take, idx)` match: the loop and the final `self.next()`. -/
-def taikoNthTail (sk : Skills S) (objs : List Bool) (take1 : Nat) (g1 : TaikoGrad S) :
-    Res (Nat × S) × TaikoGrad S :=
-  match taikoNthLoop sk (objs.drop 2) take1 g1 with
-  | (false, g2) => (.none, g2)
-  | (true, g2) =>
-    match taikoNext sk objs g2 with
-    | (some v, g3) => (.some v, g3)
-    | (none, g3) => (.none, g3)
-
-/-- The `(take, idx)` match of `nth` (first-two-objects fast paths). -/
-def taikoNthPrefix (fc : FirstTwoCombos) (g : TaikoGrad S) (take : Nat) : TaikoGrad S × Nat :=
-  if g.idx ≥ 2 ∨ take = 0 then (g, take)
-  else if take = 1 ∧ g.idx = 0 then
-    ({ g with idx := g.idx + 1,
-              maxCombo := match fc with
-                | .none => g.maxCombo | .onlyFirst => 1 | .onlySecond => g.maxCombo | .both => 1 },
-     take - 1)
-  else if g.idx = 0 then
-    ({ g with idx := g.idx + 2,
-              maxCombo := match fc with
-                | .none => g.maxCombo | .onlyFirst => 1 | .onlySecond => 1 | .both => 2 },
-     take - 2)
-  else
-    ({ g with idx := g.idx + 1,
-              maxCombo := match fc with
-                | .none => g.maxCombo | .onlyFirst => 1 | .onlySecond => 1 | .both => 2 },
-     take - 1)
-
-theorem taikoNth_eq (sk : Skills S) (objs : List Bool) (g : TaikoGrad S) (n : Nat) (checked : Bool) :
-    taikoNth sk objs g n checked =
-      match (if checked then taikoLen objs g else some (wsub (objs.filter id).length g.idx)) with
-      | none => (.panic, g)
-      | some len =>
-        let p := taikoNthPrefix (taikoFirstCombos objs) g (min n (len - 1))
-        taikoNthTail sk objs p.2 p.1 := by
-  rfl
-
-/-- `len()` as used by `nth`, in both build profiles, when `idx ≤ total_hits`. -/
-theorem taikoLenSel (rest : List Bool) (g : TaikoGrad S) (i : Nat) (hidx : g.idx = i)
-    (hle : i ≤ 2 + hitsIn rest) (checked : Bool) :
-    (if checked then taikoLen (true :: true :: rest) g
-      else some (wsub ((true :: true :: rest).filter id).length g.idx)) =
-      some (2 + hitsIn rest - i) := by
-  cases checked
-  · simp only [Bool.false_eq_true, ↓reduceIte, hits_regular, hidx, wsub, hle]
-  · simp only [↓reduceIte, taikoLen, hits_regular, hidx, csub, hle]
-
-/-- The tail from a regular state: `take1` loop rounds (only taken once two values are out) plus
-the final `next` report value number `i1 + take1 + 1`. -/
-theorem taikoNthTail_reg (sk : Skills S) (rest : List Bool) (hne : rest ≠ []) (g1 : TaikoGrad S)
-    (i1 take1 : Nat) (hc : TaikoReg sk rest g1 i1) (h2 : take1 = 0 ∨ 2 ≤ i1)
-    (hk : i1 + take1 + 1 ≤ 2 + hitsIn rest) :
-    (taikoNthTail sk (true :: true :: rest) take1 g1).1 = .some (taikoValue sk rest (i1 + take1 + 1)) ∧
-    TaikoReg sk rest (taikoNthTail sk (true :: true :: rest) take1 g1).2 (i1 + take1 + 1) := by
-  have hdrop : (true :: true :: rest).drop 2 = rest := rfl
-  have hloop : ∃ g2, taikoNthLoop sk rest take1 g1 = (true, g2) ∧ TaikoReg sk rest g2 (i1 + take1) := by
-    rcases h2 with h0 | hge
-    · subst h0; exact ⟨g1, rfl, hc⟩
-    · obtain ⟨g2, hl, hc2⟩ := taikoNthLoop_canon sk rest take1 g1 i1 (hc.toCanon hge) (by omega)
-      exact ⟨g2, hl, TaikoReg.ofCanon hc2⟩
-  obtain ⟨g2, hl, hc2⟩ := hloop
-  obtain ⟨hv, hc3⟩ := (taikoNext_reg sk rest hne g2 _ hc2).1 (by omega)
-  unfold taikoNthTail
-  rw [hdrop, hl]
-  simp only
-  generalize hr : taikoNext sk (true :: true :: rest) g2 = r at hv hc3
-  obtain ⟨rv, rg⟩ := r
-  simp only at hv hc3
-  subst hv
-  exact ⟨rfl, hc3⟩
-
-/-- `nth k` from the state after `i` values: if values remain it reports value number
-`i + min (k+1) remaining` and ends in the regular state with that index; when exhausted it returns
-`None` and drains the iterator.  Both build profiles (`checked`). -/
-theorem taikoNth_reg (sk : Skills S) (rest : List Bool) (hne : rest ≠ []) (g : TaikoGrad S) (i k : Nat)
-    (checked : Bool) (hc : TaikoReg sk rest g i) :
-    (i < 2 + hitsIn rest →
-      let j := i + min (k + 1) (2 + hitsIn rest - i)
-      (taikoNth sk (true :: true :: rest) g k checked).1 = .some (taikoValue sk rest j) ∧
-      TaikoReg sk rest (taikoNth sk (true :: true :: rest) g k checked).2 j) ∧
-    (i = 2 + hitsIn rest →
-      (taikoNth sk (true :: true :: rest) g k checked).1 = .none ∧
-      TaikoDrained sk rest (taikoNth sk (true :: true :: rest) g k checked).2) := by
-  have hfc : taikoFirstCombos (true :: true :: rest) = .both := rfl
-  rw [taikoNth_eq, taikoLenSel rest g i hc.idx hc.le checked]
-  simp only [hfc]
-  constructor
-  · intro hlt
-    generalize htake : min k (2 + hitsIn rest - i - 1) = take
-    rw [show i + min (k + 1) (2 + hitsIn rest - i) = i + take + 1 by omega]
-    obtain ⟨hidx, hcombo, hpos, hsk, hle⟩ := hc
-    rcases Nat.lt_or_ge i 2 with hlt2 | hge2
-    · have h0 : i - 2 = 0 := by omega
-      rw [h0] at hpos hsk
-      by_cases ht0 : take = 0
-      · -- no fast path: plain `next`
-        have hp : taikoNthPrefix .both g take = (g, take) := by
-          unfold taikoNthPrefix; rw [if_pos (Or.inr ht0)]
-        rw [hp]
-        have := taikoNthTail_reg sk rest hne g i take ⟨hidx, hcombo, by rw [h0]; exact hpos,
-          by rw [h0]; exact hsk, hle⟩ (Or.inl ht0) (by omega)
-        exact this
-      · have hi : i = 0 ∨ i = 1 := by omega
-        rcases hi with hi | hi <;> subst hi
-        · by_cases ht1 : take = 1
-          · -- `(1, 0)`: skip the first object
-            have hp : taikoNthPrefix .both g take = ({ g with idx := g.idx + 1, maxCombo := 1 }, take - 1) := by
-              unfold taikoNthPrefix
-              rw [if_neg (by omega), if_pos ⟨ht1, hidx⟩]
-            rw [hp]
-            have := taikoNthTail_reg sk rest hne { g with idx := g.idx + 1, maxCombo := 1 } 1 (take - 1)
-              ⟨by simp [hidx], rfl, by simpa using hpos, by simpa using hsk, by omega⟩
-              (Or.inl (by omega)) (by omega)
-            rw [show 0 + take + 1 = 1 + (take - 1) + 1 by omega]; exact this
-          · -- `(_, 0)`: skip the first two objects
-            have hp : taikoNthPrefix .both g take = ({ g with idx := g.idx + 2, maxCombo := 2 }, take - 2) := by
-              unfold taikoNthPrefix
-              rw [if_neg (by omega), if_neg (by omega), if_pos hidx]
-            rw [hp]
-            have := taikoNthTail_reg sk rest hne { g with idx := g.idx + 2, maxCombo := 2 } 2 (take - 2)
-              ⟨by simp [hidx], rfl, by simpa using hpos, by simpa using hsk, by omega⟩
-              (Or.inr (Nat.le_refl _)) (by omega)
-            rw [show 0 + take + 1 = 2 + (take - 2) + 1 by omega]; exact this
-        · -- `(_, 1)`: skip the second object
-          have hp : taikoNthPrefix .both g take = ({ g with idx := g.idx + 1, maxCombo := 2 }, take - 1) := by
-            unfold taikoNthPrefix
-            rw [if_neg (by omega), if_neg (by omega), if_neg (by omega)]
-          rw [hp]
-          have := taikoNthTail_reg sk rest hne { g with idx := g.idx + 1, maxCombo := 2 } 2 (take - 1)
-            ⟨by simp [hidx], rfl, by simpa using hpos, by simpa using hsk, by omega⟩
-            (Or.inr (Nat.le_refl _)) (by omega)
-          rw [show 1 + take + 1 = 2 + (take - 1) + 1 by omega]; exact this
-    · have hp : taikoNthPrefix .both g take = (g, take) := by
-        unfold taikoNthPrefix; rw [if_pos (Or.inl (by omega))]
-      rw [hp]
-      have := taikoNthTail_reg sk rest hne g i take ⟨hidx, hcombo, hpos, hsk, hle⟩ (Or.inr hge2) (by omega)
-      exact this
-  · intro heq
-    have htake : min k (2 + hitsIn rest - i - 1) = 0 := by omega
-    rw [htake]
-    have hp : taikoNthPrefix .both g 0 = (g, 0) := by
-      unfold taikoNthPrefix; rw [if_pos (Or.inr rfl)]
-    rw [hp]
-    have hn := (taikoNext_reg sk rest hne g i hc).2 heq
-    unfold taikoNthTail
-    simp only [taikoNthLoop]
-    generalize hr : taikoNext sk (true :: true :: rest) g = r at hn
-    obtain ⟨rv, rg⟩ := r
-    obtain ⟨hv, hd⟩ := hn
-    simp only at hv hd
-    subst hv
-    exact ⟨rfl, hd⟩
-
-theorem taikoNth_drained (sk : Skills S) (rest : List Bool) (g : TaikoGrad S) (k : Nat)
-    (checked : Bool) (hd : TaikoDrained sk rest g) :
-    taikoNth sk (true :: true :: rest) g k checked = (.none, g) := by
-  rw [taikoNth_eq, taikoLenSel rest g _ hd.idx (Nat.le_refl _) checked]
-  have htake : min k (2 + hitsIn rest - (2 + hitsIn rest) - 1) = 0 := by omega
-  simp only [htake]
-  have hp : taikoNthPrefix (taikoFirstCombos (true :: true :: rest)) g 0 = (g, 0) := by
-    unfold taikoNthPrefix; rw [if_pos (Or.inr rfl)]
-  rw [hp]
-  unfold taikoNthTail
-  simp only [taikoNthLoop, taikoNext_drained sk rest g hd]
-
-/-! ## `len` and iterated `next` -/
-
-theorem taikoLen_st (sk : Skills S) (rest : List Bool) (g : TaikoGrad S) (i : Nat)
-    (hs : TaikoSt sk rest g i) :
-    taikoLen (true :: true :: rest) g = some (2 + hitsIn rest - i) := by
-  have h : g.idx = i ∧ i ≤ 2 + hitsIn rest := by
-    rcases hs with h | ⟨he, h⟩
-    · exact ⟨h.idx, h.le⟩
-    · exact ⟨by rw [h.idx, he], by omega⟩
-  have := taikoLenSel rest g i h.1 h.2 true
-  simpa using this
-
-theorem taiko_nexts_reg (sk : Skills S) (rest : List Bool) (hne : rest ≠ []) (k : Nat) (g : TaikoGrad S)
-    (i : Nat) (hc : TaikoReg sk rest g i) (hk : i + k ≤ 2 + hitsIn rest) :
-    ((taikoMachine sk (true :: true :: rest)).nexts g k).1 =
-      (List.range k).map (fun d => Res.some (taikoValue sk rest (i + d + 1))) ∧
-    TaikoReg sk rest ((taikoMachine sk (true :: true :: rest)).nexts g k).2 (i + k) := by
-  induction k generalizing g i with
-  | zero => simpa [Machine.nexts] using hc
-  | succ k ih =>
-    have hlt : i < 2 + hitsIn rest := by omega
-    obtain ⟨hv, hc'⟩ := (taikoNext_reg sk rest hne g i hc).1 hlt
-    have ih' := ih _ (i + 1) hc' (by omega)
-    simp only [Machine.nexts]
-    have hn : (taikoMachine sk (true :: true :: rest)).next g =
-        (Res.some (taikoValue sk rest (i + 1)), (taikoNext sk (true :: true :: rest) g).2) := by
-      show (optToRes (taikoNext sk (true :: true :: rest) g).1, _) = _
-      rw [hv]; rfl
-    rw [hn]
-    refine ⟨?_, ?_⟩
-    · simp only
-      rw [ih'.1, List.range_succ_eq_map]
-      simp only [List.map_cons, List.map_map, Nat.add_zero]
-      congr 1
-      apply List.map_congr_left
-      intro d _
-      simp only [Function.comp]
-      congr 2
+/-- The `for _ in 0..take { loop { … } }` part of `nth` from a canonical state at or beyond the hits
+of the first two objects: it advances by exactly `c` hits. -/
+theorem taikoNthLoop_canon (sk : Skills S) (objs : List Bool) :
+    ∀ (c : Nat) (g : TaikoGrad S) (j : Nat), TaikoCanon sk objs g j → firstHits objs ≤ j ∨ c = 0 →
+      j + c ≤ hitsIn objs →
+      ∃ g', taikoNthLoop sk (objs.drop 2) c g = (true, g') ∧ TaikoCanon sk objs g' (j + c)
+  | 0, g, j, hc, _, _ => ⟨g, rfl, by simpa using hc⟩
+  | c + 1, g, j, hc, hj, hle => by
+    have hk : firstHits objs ≤ j := by rcases hj with h | h <;> omega
+    obtain ⟨hidx, hcombo, hpos, hsk, hle'⟩ := hc
+    have hH := hitsIn_split objs
+    have hrem : hitsIn ((objs.drop 2).drop (cutLen (objs.drop 2) (j - firstHits objs))) =
+        hitsIn (objs.drop 2) - (j - firstHits objs) :=
+      hitsIn_drop_cutLen (objs.drop 2) (j - firstHits objs) (by omega)
+    have hh : 1 ≤ hitsIn ((objs.drop 2).drop (cutLen (objs.drop 2) (j - firstHits objs))) := by omega
+    have hf : cutLen ((objs.drop 2).drop (cutLen (objs.drop 2) (j - firstHits objs))) 1 ≤
+        (objs.drop 2).length + 1 := by
+      have h1 := cutLen_le ((objs.drop 2).drop (cutLen (objs.drop 2) (j - firstHits objs))) 1
+      have h2 : ((objs.drop 2).drop (cutLen (objs.drop 2) (j - firstHits objs))).length ≤
+          (objs.drop 2).length := by rw [List.length_drop]; omega
       omega
-    · have e : i + (k + 1) = i + 1 + k := by omega
-      rw [e]; exact ih'.2
+    have hl := taikoHitLoop_hit sk (objs.drop 2) ((objs.drop 2).length + 1) g _ hpos hsk hh hf
+    have hnext : cutLen (objs.drop 2) (j - firstHits objs) +
+        cutLen ((objs.drop 2).drop (cutLen (objs.drop 2) (j - firstHits objs))) 1 =
+        cutLen (objs.drop 2) (j + 1 - firstHits objs) := by
+      rw [← cutLen_add]; congr 1; omega
+    have hc' : TaikoCanon sk objs
+        { g with iterPos := cutLen (objs.drop 2) (j + 1 - firstHits objs),
+                 skills := processedPrefix sk (cutLen (objs.drop 2) (j + 1 - firstHits objs)),
+                 maxCombo := g.maxCombo + 1, idx := g.idx + 1 } (j + 1) :=
+      ⟨by simp [hidx], by simp [hcombo], rfl, rfl, by omega⟩
+    obtain ⟨g', h1, h2⟩ := taikoNthLoop_canon sk objs c _ (j + 1) hc' (Or.inl (by omega)) (by omega)
+    refine ⟨g', ?_, by rw [show j + (c + 1) = j + 1 + c by omega]; exact h2⟩
+    simp only [taikoNthLoop, hl, hnext]
+    exact h1
+
+/-- **`nth`**, from the canonical state after `i` values: no panic; with
+`r = H - i` values remaining it returns `None` when `r = 0`, otherwise the value number
+`i + min n (r - 1) + 1` — i.e. exactly what `min (n + 1) r` calls of `next` return last — and leaves
+the canonical state after that many values. -/
+theorem taikoNth_spec (sk : Skills S) (objs : List Bool) (g : TaikoGrad S) (i n : Nat)
+    (hc : TaikoCanon sk objs g i) :
+    (i = hitsIn objs → (taikoNth sk objs g n).1 = .none ∧ (taikoNth sk objs g n).2.idx = i) ∧
+    (i < hitsIn objs →
+      (taikoNth sk objs g n).1 = .some (taikoValue sk objs (i + min n (hitsIn objs - i - 1) + 1)) ∧
+      TaikoCanon sk objs (taikoNth sk objs g n).2 (i + min n (hitsIn objs - i - 1) + 1)) := by
+  have hlen : taikoLen objs g = some (hitsIn objs - i) := by
+    show csub (objs.filter id).length g.idx = _
+    rw [hc.idx]
+    have := hc.le
+    simp [csub, hitsIn] at this ⊢
+    exact this
+  have hn := nHits_eq objs
+  -- the state after the `while take > 0 && idx < n_hits` loop
+  have hskip : ∀ t, i + t ≤ hitsIn objs →
+      TaikoCanon sk objs
+        { g with idx := g.idx + min t ((taikoFirstCombos objs).nHits - g.idx),
+                 maxCombo := g.maxCombo + min t ((taikoFirstCombos objs).nHits - g.idx) }
+        (i + min t (firstHits objs - i)) := by
+    intro t ht
+    obtain ⟨hidx, hcombo, hpos, hsk, hle⟩ := hc
+    rw [hn, hidx]
+    refine ⟨by simp [hidx], by simp [hcombo], ?_, ?_, by omega⟩
+    · show g.iterPos = _
+      rw [hpos]; congr 1; omega
+    · show g.skills = _
+      rw [hsk]; congr 2; omega
+  constructor
+  · intro heq
+    have hl0 : taikoLen objs g = some 0 := by rw [hlen, heq]; simp
+    have hc0 := hskip 0 (by omega)
+    simp only [Nat.zero_min, Nat.add_zero] at hc0
+    have hnx := (taikoNext_spec sk objs _ i hc0).2 heq
+    simp only [taikoNth, hl0, Nat.zero_sub, Nat.min_zero, Nat.zero_min, Nat.add_zero, taikoNthLoop]
+    generalize taikoNext sk objs _ = r at hnx ⊢
+    obtain ⟨a, b⟩ := r
+    obtain ⟨h1, h2⟩ := hnx
+    simp only at h1 h2
+    subst h1
+    exact ⟨rfl, h2⟩
+  · intro hlt
+    have htake : i + min n (hitsIn objs - i - 1) ≤ hitsIn objs := by omega
+    have hc1 := hskip (min n (hitsIn objs - i - 1)) htake
+    obtain ⟨g2, hloop, hc2⟩ := taikoNthLoop_canon sk objs
+      (min n (hitsIn objs - i - 1) - min (min n (hitsIn objs - i - 1)) (firstHits objs - i)) _ _ hc1
+      (by omega) (by omega)
+    have hsum : i + min (min n (hitsIn objs - i - 1)) (firstHits objs - i) +
+        (min n (hitsIn objs - i - 1) - min (min n (hitsIn objs - i - 1)) (firstHits objs - i)) =
+        i + min n (hitsIn objs - i - 1) := by omega
+    rw [hsum] at hc2
+    have hnx := (taikoNext_spec sk objs g2 _ hc2).1 (by omega)
+    have hidx := hc.idx
+    simp only [taikoNth, hlen]
+    rw [hn, hidx] at hloop ⊢
+    rw [hloop]
+    simp only
+    generalize taikoNext sk objs g2 = r at hnx ⊢
+    obtain ⟨a, b⟩ := r
+    obtain ⟨h1, h2⟩ := hnx
+    simp only at h1 h2
+    subst h1
+    exact ⟨rfl, h2⟩
+
+
+/-- Once drained, `nth` returns `None` and changes nothing. -/
+theorem taikoNth_drained (sk : Skills S) (objs : List Bool) (g : TaikoGrad S) (k : Nat)
+    (hd : TaikoDrained sk objs g) : taikoNth sk objs g k = (.none, g) := by
+  have hl : taikoLen objs g = some 0 := by
+    rw [taikoLen_canon sk objs g _ hd.idx (Nat.le_refl _)]; simp
+  have hg : ({ g with idx := g.idx + 0, maxCombo := g.maxCombo + 0 } : TaikoGrad S) = g := by
+    cases g; rfl
+  simp only [taikoNth, hl, Nat.zero_sub, Nat.min_zero, Nat.zero_min, hg, taikoNthLoop,
+    taikoNext_drained sk objs g hd]
+
+/-- `nth` maps reachable states to reachable states and never panics. -/
+theorem taikoNth_st (sk : Skills S) (objs : List Bool) (g : TaikoGrad S) (i k : Nat)
+    (hs : TaikoSt sk objs g i) :
+    (taikoNth sk objs g k).1 ≠ .panic ∧ ∃ j, TaikoSt sk objs (taikoNth sk objs g k).2 j := by
+  rcases hs with hc | ⟨he, hd⟩
+  · rcases Nat.lt_or_ge i (hitsIn objs) with hlt | hge
+    · obtain ⟨hv, hc'⟩ := (taikoNth_spec sk objs g i k hc).2 hlt
+      exact ⟨by rw [hv]; simp, _, Or.inl hc'⟩
+    · have heq : i = hitsIn objs := by have := hc.le; omega
+      have hv := (taikoNth_spec sk objs g i k hc).1 heq
+      refine ⟨by rw [hv.1]; simp, ?_⟩
+      -- the state after the exhausted `nth` is the state after the exhausted `next`
+      have hl0 : taikoLen objs g = some 0 := by
+        rw [taikoLen_canon sk objs g i hc.idx hc.le, heq]; simp
+      have hg : ({ g with idx := g.idx + 0, maxCombo := g.maxCombo + 0 } : TaikoGrad S) = g := by
+        cases g; rfl
+      have hx := taikoNext_exhausted sk objs g (heq ▸ hc)
+      have hst : (taikoNth sk objs g k).2 = (taikoNext sk objs g).2 := by
+        simp only [taikoNth, hl0, Nat.zero_sub, Nat.min_zero, Nat.zero_min, hg, taikoNthLoop]
+        generalize taikoNext sk objs g = r at hx ⊢
+        obtain ⟨a, b⟩ := r
+        obtain ⟨h1, _⟩ := hx
+        simp only at h1
+        subst h1
+        rfl
+      rw [hst]
+      exact ⟨_, Or.inr ⟨rfl, hx.2⟩⟩
+  · rw [taikoNth_drained sk objs g k hd]
+    exact ⟨by simp, i, Or.inr ⟨he, hd⟩⟩
+
+/-- Any number of `next` calls keeps the state reachable. -/
+theorem taiko_nexts_st (sk : Skills S) (objs : List Bool) :
+    ∀ (n : Nat) (g : TaikoGrad S) (i : Nat), TaikoSt sk objs g i →
+      ∃ j, TaikoSt sk objs ((taikoMachine sk objs).nexts g n).2 j
+  | 0, g, i, hs => ⟨i, hs⟩
+  | n + 1, g, i, hs => by
+    obtain ⟨j, hj⟩ := taikoNext_st sk objs g i hs
+    exact taiko_nexts_st sk objs n (taikoNext sk objs g).2 j hj
 
 end Rosu.Gradual
